@@ -1,6 +1,7 @@
 """C04 — the phased VCF is the input VCF plus phase information and nothing else."""
 import json
 import os
+import re
 import traceback
 from concurrent.futures import ThreadPoolExecutor
 
@@ -353,6 +354,13 @@ def tally_shapes(ctx, prefix, vt):
                             ctx.tally(f"{prefix}.pre_{k}_with_" + ("pipe" if "|" in gt else "slash"))
                     if "|" in gt and vals.get("PS", ".") in (".", ""):
                         ctx.tally(f"{prefix}.pipe_without_PS")
+                hpv = vals.get("HP", ".")
+                if hpv not in (".", "") and not re.fullmatch(r"\d+-\d+(,\d+-\d+)*", hpv):
+                    ctx.tally(f"{prefix}.pre_HP_foreign." + ("single" if "," not in hpv else "multi"))
+                if "." in vals.get("PS", "") and vals["PS"] != ".":
+                    ctx.tally(f"{prefix}.pre_PS_non_integral")
+                if vals.get("PQ", ".") not in (".", ""):
+                    ctx.tally(f"{prefix}.pre_PQ")
 
 
 def run_direct(ctx, n):
@@ -434,6 +442,8 @@ def decorate_scenario(rng, sc, opts):
         hl.append(vcfgen.FORMAT_DEFS["PS"])
     if pre == "HP":
         hl.append(vcfgen.FORMAT_DEFS["HP"])
+    if pre:
+        hl.append(vcfgen.FORMAT_DEFS["PQ"])
     if rng.random() < 0.5:
         hl.append(vcfgen.INFO_DEFS["END"])
     vt = vcfabs.VcfText(samples, hl)
@@ -443,6 +453,8 @@ def decorate_scenario(rng, sc, opts):
             keys = [k for k in ("GQ", "DP", "AD", "XF") if rng.random() < 0.35]
             rng.shuffle(keys)
             fmt = ["GT"] + keys + ([pre] if pre and rng.random() < 0.7 else [])
+            if pre and pre in fmt and rng.random() < 0.3:
+                fmt.append("PQ")
             calls = []
             for s in samples:
                 a, b = sc.haps[s][c][i]
@@ -473,7 +485,12 @@ def decorate_scenario(rng, sc, opts):
                         vals.append(str(sc.variants[c][0].pos + 1) if "|" in gt or rng.random() < 0.2 else ".")
                     elif k == "HP":
                         b0 = sc.variants[c][0].pos + 1
-                        vals.append(rng.choice([f"{b0}-1,{b0}-2", f"{b0}-2,{b0}-1"]) if a != b and gt[0].isdigit() and rng.random() < 0.7 else ".")
+                        if rng.random() < 0.2:
+                            vals.append(rng.choice(vcfgen.FOREIGN_HP))       # HP written by another tool
+                        else:
+                            vals.append(rng.choice([f"{b0}-1,{b0}-2", f"{b0}-2,{b0}-1"]) if a != b and gt[0].isdigit() and rng.random() < 0.7 else ".")
+                    elif k == "PQ":
+                        vals.append(rng.choice(["42", "3.5", "0.125", "."]))
                 while len(vals) > 1 and vals[-1] == "." and rng.random() < 0.5:
                     vals.pop()
                 calls.append(":".join(vals))
